@@ -264,7 +264,9 @@ func (ch c18) runCase(c *core.Ctx, env *hs.Env, L int, rng *core.Rng, idx int) {
 		copy(b, tag)
 		if rng.Intn(3) == 0 && n > len(tag)+12 {
 			// line breaks, tabs and non-ASCII text right behind the tag (within the first bytes of the message)
-			copy(b[len(tag):], core.Pick(rng, []string{"\n\tSEL", "\r\n", " na\xc3\xafve ", "\x01\x1b[0m", "\t\t"}))
+			copy(b[len(tag):], core.Pick(rng, []string{"\n\tSEL", "\r\n", " na\xc3\xafve ", "\x01\x1b[0m", "\t\t",
+				// ... and bytes that are no UTF-8 at all (a query text is a byte string)
+				" caf\xe9 ", "\xff\xfe", " \xc3", "\x80\x80\x80", " \xed\xa0\x80 "}))
 		}
 		return string(b)
 	}
